@@ -350,6 +350,10 @@ func (l Lock) verifyBuilderRegistrations() error {
 			return errors.New("missing validator registration", z.Int("i", i))
 		}
 
+		if i >= len(feeRecipientAddrs) {
+			return errors.New("missing fee recipient address for validator", z.Int("i", i))
+		}
+
 		regMsg, err := registration.NewMessage(eth2p0.BLSPubKey(val.PubKey), feeRecipientAddrs[i], uint64(val.BuilderRegistration.Message.GasLimit), val.BuilderRegistration.Message.Timestamp)
 		if err != nil {
 			return err
